@@ -178,6 +178,11 @@ func (e *twinEnv) queryList() []struct {
 		{"/panacea.pnft.v2.Query/PNFT", &pnfttypes.QueryPNFTRequest{DenomId: "d", Id: "t"}},
 		{"/panacea.pnft.v2.Query/DenomsByOwner", &pnfttypes.QueryDenomsByOwnerRequest{Owner: e.A.Bech}},
 		{"/cosmos.bank.v1beta1.Query/SupplyOf", &banktypes.QuerySupplyOfRequest{Denom: "umed"}},
+		// entries that exist only in some genesis variants (NotFound elsewhere)
+		{"/panacea.aol.v2.Query/Record", &aoltypes.QueryRecordRequest{OwnerAddress: e.B.Bech, TopicName: "g", Offset: 0}},
+		{"/panacea.aol.v2.Query/Writer", &aoltypes.QueryWriterRequest{OwnerAddress: e.B.Bech, TopicName: "g", WriterAddress: e.W.Bech}},
+		{"/panacea.pnft.v2.Query/Denom", &pnfttypes.QueryDenomRequest{Id: "d"}},
+		{"/panacea.pnft.v2.Query/Denom", &pnfttypes.QueryDenomRequest{Id: "dx"}},
 	}
 }
 
@@ -230,6 +235,9 @@ func (e *twinEnv) mixedOps() []mixedOp {
 		one("TransferPNFT(d,t,A->B)", s(e.A), pnfttypes.NewMsgTransferPNFTRequest("d", "t", e.A.Bech, e.B.Bech)),
 		one("Mint(d,t,B)", s(e.B), pnfttypes.NewMsgMintPNFTRequest("d", "t", "evil", "", "", "", e.B.Bech, "")),
 		one("Send(A->burn,7umed)", s(e.A), banktypes.NewMsgSend(e.A.Addr, burn, sdk.NewCoins(sdk.NewInt64Coin("umed", 7)))),
+		// denom d has no data, denom dx (setup) has: whatever a node decoded last must not leak into what it stores
+		one("TransferDenom(d,A->B)", s(e.A), pnfttypes.NewMsgTransferRequest("d", e.A.Bech, e.B.Bech)),
+		one("UpdateDenom(d,A)", s(e.A), pnfttypes.NewMsgUpdateDenomRequest("d", "", "renamed", "", "", "", "", e.A.Bech)),
 	}
 }
 
@@ -245,6 +253,7 @@ func (e *twinEnv) setupSpecs() []world.TxSpec {
 		{Msgs: []sdk.Msg{&didtypes.MsgCreateDIDRequest{Did: e.Did, Document: doc, VerificationMethodId: k.vmID(e.Did, 1), Signature: k.sign(doc, 0, 1), FromAddress: e.A.Bech}}, Signers: s(e.A), Fee: aolFee},
 		{Msgs: []sdk.Msg{pnfttypes.NewMsgCreateDenomRequest("d", "SYM", "name", "", "", "", e.A.Bech, "")}, Signers: s(e.A), Fee: aolFee},
 		{Msgs: []sdk.Msg{pnfttypes.NewMsgMintPNFTRequest("d", "t", "tok", "", "", "", e.A.Bech, "")}, Signers: s(e.A), Fee: aolFee},
+		{Msgs: []sdk.Msg{pnfttypes.NewMsgCreateDenomRequest("dx", "SYX", "with data", "desc", "uri", "hash", e.B.Bech, "{\"schema\":\"v1\"}")}, Signers: s(e.B), Fee: aolFee},
 	}
 }
 
@@ -587,6 +596,42 @@ func upgradeCases(e *twinEnv, shard, n int) []*histCase {
 		}
 		h, obs := e.buildHistoryU(blocks, "", 1, name)
 		out = append(out, &histCase{blocks: blocks, name: "upgrade(" + name + ")@block1 " + histName(e.mixedOps(), blocks), hist: h, obsA: obs})
+	}
+	return out
+}
+
+// variantCases: one block of mixed traffic on top of every genesis variant.
+func variantCases(e *twinEnv, shard, n int) []*histCase {
+	var out []*histCase
+	for gi, gv := range sortedKeys(genesisVariants) {
+		if gi%n != shard {
+			continue
+		}
+		blocks := [][]int{{0, 2, 5}}
+		h, obs := e.buildHistoryG(blocks, gv)
+		out = append(out, &histCase{blocks: blocks, name: "genesis=" + gv + " " + histName(e.mixedOps(), blocks), hist: h, obsA: obs})
+	}
+	return out
+}
+
+// longCases: histories longer than any block-count threshold one might reasonably hard-code (24 blocks), with deposits at
+// the burn address in most blocks and custom traffic in between.
+func longCases(e *twinEnv, shard, n int) []*histCase {
+	var out []*histCase
+	for i, pat := range [][]int{{11, 11, 2}, {11, -1, 11, 3}} {
+		if (i+5)%n != shard {
+			continue
+		}
+		var blocks [][]int
+		for b := 0; b < 24; b++ {
+			if op := pat[b%len(pat)]; op >= 0 {
+				blocks = append(blocks, []int{op})
+			} else {
+				blocks = append(blocks, []int{})
+			}
+		}
+		h, obs := e.buildHistory(blocks)
+		out = append(out, &histCase{blocks: blocks, name: fmt.Sprintf("long(24 blocks, pattern %v)", pat), hist: h, obsA: obs, long: true})
 	}
 	return out
 }
